@@ -127,11 +127,26 @@ type ingressClassConfig struct {
 }
 
 func (c *converter) NeedFullSync() bool {
-	needFullSync := c.defaultCrtNeedFullSync() || c.globalConfigNeedFullSync()
+	needFullSync := c.defaultCrtNeedFullSync() || c.globalConfigNeedFullSync() || c.gatewayNeedFullSync()
 	if needFullSync && c.defaultCrt.SHA1Hash == c.options.FakeCrtFile.SHA1Hash {
 		c.logger.Info("using auto generated fake certificate")
 	}
 	return needFullSync
+}
+
+// gatewayNeedFullSync reports if the changed ingress resources share hosts with
+// Gateway API routes, which are only parsed by a full sync. An added ingress,
+// or an updated one that starts to name a host, is not linked to that host yet,
+// so the gateway converter cannot see that a partial sync is going to rebuild it
+// from the ingress resources alone.
+func (c *converter) gatewayNeedFullSync() bool {
+	if len(c.changed.IngressesAdd) == 0 && len(c.changed.IngressesUpd) == 0 {
+		return false
+	}
+	c.trackAddedIngress()
+	links := c.tracker.QueryLinks(c.changed.Links, false)
+	_, found := links[convtypes.ResourceGateway]
+	return found
 }
 
 func (c *converter) Sync(full bool) {
